@@ -30,8 +30,12 @@ package main
 // Environment overrides of the configuration: a credential that is configured
 // (in the file or through either variable) is never blanked by the overrides -
 // blank credentials silently switch the auth middleware off in main.
-//@ func portCHEnv
-//@   modifies everything
+// Porting the CLICKHOUSE_* variables fills in the database entry and nothing else: the
+// HTTP credentials (login and password of the basic-auth check) are not touched by it -
+// the ClickHouse user is not the HTTP login.
+//@ func portCHEnv [C20]
+//@   flag checks=-index,-assert,-slice,-make
+//@   ensures the-http-credentials-are-not-the-database-credentials: cfg.Setting.AUTH_SETTINGS.BASIC.Username == old(cfg.Setting.AUTH_SETTINGS.BASIC.Username) && cfg.Setting.AUTH_SETTINGS.BASIC.Password == old(cfg.Setting.AUTH_SETTINGS.BASIC.Password)
 //@ func boolEnv
 //@   modifies nothing
 //@ func portEnv [C20]
@@ -40,4 +44,6 @@ package main
 //@   check password-from-variable: result == nil && getenv("CLOKI_PASSWORD") == "" && getenv("QRYN_PASSWORD") != "" ==> cfg.Setting.AUTH_SETTINGS.BASIC.Password == getenv("QRYN_PASSWORD")
 //@   check login-never-wiped: result == nil && (getenv("QRYN_LOGIN") != "" || getenv("CLOKI_LOGIN") != "") ==> cfg.Setting.AUTH_SETTINGS.BASIC.Username != ""
 //@   check login-legacy-variable-wins: result == nil && getenv("CLOKI_LOGIN") != "" ==> cfg.Setting.AUTH_SETTINGS.BASIC.Username == getenv("CLOKI_LOGIN")
+//@   check login-from-the-file-is-kept: result == nil && getenv("CLOKI_LOGIN") == "" && getenv("QRYN_LOGIN") == "" ==> cfg.Setting.AUTH_SETTINGS.BASIC.Username == old(cfg.Setting.AUTH_SETTINGS.BASIC.Username)
+//@   check password-from-the-file-is-kept: result == nil && getenv("CLOKI_PASSWORD") == "" && getenv("QRYN_PASSWORD") == "" ==> cfg.Setting.AUTH_SETTINGS.BASIC.Password == old(cfg.Setting.AUTH_SETTINGS.BASIC.Password)
 //@   check login-from-variable: result == nil && getenv("CLOKI_LOGIN") == "" && getenv("QRYN_LOGIN") != "" ==> cfg.Setting.AUTH_SETTINGS.BASIC.Username == getenv("QRYN_LOGIN")
